@@ -220,7 +220,7 @@ static std::vector<Letter> catalogue() {
         l = setter(S_INTERVAL, K_SMP, "samplingInterval", "-0.5", "interval negative", LF | LR, false); l.d1 = -0.5; A.push_back(l);
         l = setter(S_OFFSET, K_SMP, "offset", "1.5", "offset positive", LF | LR, false); l.d1 = 1.5; A.push_back(l);
         l = setter(S_OFFSET, K_SMP, "offset", "-3.25", "offset negative", LF | LS | LM, true); l.d1 = -3.25; A.push_back(l);
-        l = setter(S_OFFSET, K_SMP, "offset", "0", "offset 0", LT, false); l.d1 = 0.0; A.push_back(l);
+        l = setter(S_OFFSET, K_SMP, "offset", "0", "offset 0", LF | LM, true); l.d1 = 0.0; A.push_back(l);
         l = setter(S_OFFSET, K_SMP, "offset", "none", "offset none", LF, true); l.none = true; A.push_back(l);
         l = setter(S_INTERVAL, K_SMP, "samplingInterval", "4", "interval positive", LF, false); l.d1 = 4.0; l.last = true; l.name = "sampled (last).samplingInterval(4)"; A.push_back(l);
     }
